@@ -31,7 +31,7 @@ func (f *Formatter) formatAclDeclaration(decl *ast.AclDeclaration) *Declaration 
 		}
 		buf.WriteString(`"` + cidr.IP.Value + `"`)
 		if cidr.Mask != nil {
-			buf.WriteString("/" + cidr.Mask.String())
+			buf.WriteString("/" + nodeString(cidr.Mask))
 		}
 		if v := f.formatComment(cidr.IP.Trailing, " ", 0); v != "" {
 			buf.WriteString(" " + v)
@@ -58,7 +58,7 @@ func (f *Formatter) formatAclDeclaration(decl *ast.AclDeclaration) *Declaration 
 	defer bufferPool.Put(buf)
 
 	buf.Reset()
-	buf.WriteString("acl " + decl.Name.String() + " {\n")
+	buf.WriteString("acl " + nodeString(decl.Name) + " {\n")
 	buf.WriteString(group.String())
 	if len(decl.Infix) > 0 {
 		buf.WriteString(f.formatComment(decl.Infix, "\n", 1))
@@ -85,7 +85,7 @@ func (f *Formatter) formatBackendDeclaration(decl *ast.BackendDeclaration) *Decl
 	defer bufferPool.Put(buf)
 
 	buf.Reset()
-	buf.WriteString("backend " + decl.Name.String() + " {\n")
+	buf.WriteString("backend " + nodeString(decl.Name) + " {\n")
 	buf.WriteString(f.formatBackendProperties(decl.Properties, 1))
 	if len(decl.Infix) > 0 {
 		buf.WriteString(f.formatComment(decl.Infix, "\n", 1))
@@ -119,7 +119,7 @@ func (f *Formatter) formatBackendProperties(props []*ast.BackendProperty, nestLe
 		line := &DeclarationPropertyLine{
 			Leading:  f.propertyLeading(prop.Leading, nestLevel),
 			Trailing: f.trailing(prop.Trailing),
-			Key:      f.indent(nestLevel) + "." + prop.Key.String(),
+			Key:      f.indent(nestLevel) + "." + nodeString(prop.Key),
 			Operator: " = ",
 		}
 		if po, ok := prop.Value.(*ast.BackendProbeObject); ok {
@@ -192,7 +192,7 @@ func (f *Formatter) formatDirectorDeclaration(decl *ast.DirectorDeclaration) *De
 				if v := f.formatComment(v.Leading, " ", 0); v != "" {
 					line.Key += v
 				}
-				line.Key += fmt.Sprintf(".%s = %s; ", v.Key.String(), f.formatPropertyValue(v.Value))
+				line.Key += fmt.Sprintf(".%s = %s; ", nodeString(v.Key), f.formatPropertyValue(v.Value))
 			}
 			if len(t.Infix) > 0 {
 				line.Key += f.formatComment(t.Infix, " ", 0)
@@ -201,7 +201,7 @@ func (f *Formatter) formatDirectorDeclaration(decl *ast.DirectorDeclaration) *De
 			// Backend property is object, semicolon is not needed
 			line.isObject = true
 		case *ast.DirectorProperty:
-			line.Key += "." + t.Key.String()
+			line.Key += "." + nodeString(t.Key)
 			line.Operator = " = "
 			line.Value = f.formatPropertyValue(t.Value)
 			line.EndCharacter = ";"
@@ -228,7 +228,7 @@ func (f *Formatter) formatDirectorDeclaration(decl *ast.DirectorDeclaration) *De
 	defer bufferPool.Put(buf)
 
 	buf.Reset()
-	buf.WriteString("director " + decl.Name.String() + " " + decl.DirectorType.String() + " {\n")
+	buf.WriteString("director " + nodeString(decl.Name) + " " + nodeString(decl.DirectorType) + " {\n")
 	buf.WriteString(group.String())
 	if len(decl.Infix) > 0 {
 		buf.WriteString(f.formatComment(decl.Infix, "\n", 1))
@@ -258,9 +258,9 @@ func (f *Formatter) formatTableDeclaration(decl *ast.TableDeclaration) *Declarat
 	defer bufferPool.Put(buf)
 
 	buf.Reset()
-	buf.WriteString("table " + decl.Name.String())
+	buf.WriteString("table " + nodeString(decl.Name))
 	if decl.ValueType != nil {
-		buf.WriteString(" " + decl.ValueType.String())
+		buf.WriteString(" " + nodeString(decl.ValueType))
 	}
 	buf.WriteString(" {\n")
 	buf.WriteString(f.formatTableProperties(decl.Properties))
@@ -327,7 +327,7 @@ func (f *Formatter) formatPenaltyboxDeclaration(decl *ast.PenaltyboxDeclaration)
 	defer bufferPool.Put(buf)
 
 	buf.Reset()
-	buf.WriteString("penaltybox " + decl.Name.String())
+	buf.WriteString("penaltybox " + nodeString(decl.Name))
 	buf.WriteString(" {")
 	// penaltybox does not have properties
 	if len(decl.Block.Infix) > 0 {
@@ -349,7 +349,7 @@ func (f *Formatter) formatRatecounterDeclaration(decl *ast.RatecounterDeclaratio
 	defer bufferPool.Put(buf)
 
 	buf.Reset()
-	buf.WriteString("ratecounter " + decl.Name.String())
+	buf.WriteString("ratecounter " + nodeString(decl.Name))
 	buf.WriteString(" {")
 	// ratecounter does not have properties
 	if len(decl.Block.Infix) > 0 {
@@ -371,13 +371,13 @@ func (f *Formatter) formatSubroutineDeclaration(decl *ast.SubroutineDeclaration)
 	defer bufferPool.Put(buf)
 
 	buf.Reset()
-	buf.WriteString("sub " + decl.Name.String())
+	buf.WriteString("sub " + nodeString(decl.Name))
 
 	// Format subroutine parameters if exists
 	if len(decl.Parameters) > 0 {
 		args := make([]string, len(decl.Parameters))
 		for i, param := range decl.Parameters {
-			args[i] = param.Type.String() + " " + param.Name.String()
+			args[i] = nodeString(param.Type) + " " + nodeString(param.Name)
 		}
 		buf.WriteString("(" + strings.Join(args, ", ") + ")")
 	}
@@ -386,7 +386,7 @@ func (f *Formatter) formatSubroutineDeclaration(decl *ast.SubroutineDeclaration)
 
 	// Functional Subroutine
 	if decl.ReturnType != nil {
-		buf.WriteString(decl.ReturnType.String() + " ")
+		buf.WriteString(nodeString(decl.ReturnType) + " ")
 		f.isFunctionalSubroutine = true // flag turns on
 		defer func() {
 			f.isFunctionalSubroutine = false
